@@ -89,10 +89,12 @@ impl HA {
     pub fn key(&self) -> (i64, u8, u32, u32, u32, u32, usize, usize, bool) {
         (self.val, self.group, self.updates, self.merges, self.optimized, self.seen_metric_calls, self.seen_history_len, self.seen_prev_length, self.poison)
     }
-    pub fn status(&self) -> std::result::Result<&'static str, ()> {
+    /// status from the value and from the observations collected so far: a track whose value
+    /// says Ready is still Pending while it has no observation at all
+    pub fn status(&self, nobs: usize) -> std::result::Result<&'static str, ()> {
         match self.val.rem_euclid(4) {
             0 => Ok("pending"),
-            1 => Ok("ready"),
+            1 => Ok(if nobs == 0 { "pending" } else { "ready" }),
             2 => Ok("wasted"),
             _ => Err(()),
         }
@@ -168,10 +170,11 @@ impl TrackAttributes<HA, HO> for HA {
         Ok(())
     }
 
-    fn baked(&self, _obs: &ObservationsDb<HO>) -> Result<TrackStatus> {
+    fn baked(&self, obs: &ObservationsDb<HO>) -> Result<TrackStatus> {
+        let nobs: usize = obs.values().map(|v| v.len()).sum();
         match self.val.rem_euclid(4) {
             0 => Ok(TrackStatus::Pending),
-            1 => Ok(TrackStatus::Ready),
+            1 => Ok(if nobs == 0 { TrackStatus::Pending } else { TrackStatus::Ready }),
             2 => Ok(TrackStatus::Wasted),
             _ => Err(anyhow!("status error for val {}", self.val)),
         }
@@ -399,6 +402,14 @@ impl MTrack {
 
     pub fn classes(&self) -> Vec<u64> {
         self.obs.keys().cloned().collect()
+    }
+
+    pub fn nobs(&self) -> usize {
+        self.obs.values().map(|v| v.len()).sum()
+    }
+
+    pub fn status(&self) -> std::result::Result<&'static str, ()> {
+        self.attrs.status(self.nobs())
     }
 
     /// reference for Track::distances: Err(true) = incompatible, Err(false) = class missing
